@@ -17,11 +17,14 @@
 package main
 
 import (
+	"bytes"
+	"encoding/binary"
 	"flag"
 	"fmt"
 	"math"
 	"math/big"
 	"strings"
+	"time"
 
 	"github.com/enfein/mieru/v3/pkg/appctl/appctlpb"
 	"github.com/enfein/mieru/v3/pkg/cipher"
@@ -498,8 +501,215 @@ func groupC14(n int) {
 	}
 }
 
+
+// ---------------------------------------------------------------- metadata codecs (C09) and the timestamp test (C08)
+
+// atSecond runs f until it starts and ends within one second of the real clock and returns that second: the value
+// time.Now().Unix() had inside f.
+func atSecond(f func()) int64 {
+	for {
+		n1 := time.Now().Unix()
+		f()
+		if time.Now().Unix() == n1 {
+			return n1
+		}
+	}
+}
+
+func metaFields(m protocol.VerifC09Meta) string {
+	return fmt.Sprintf("%d %d %d %d %d %d %d", m.Proto, m.Timestamp, m.SessionID, m.Seq, m.StatusCode, m.PayloadLen, m.SuffixLen)
+}
+
+var u32Boundary = []uint32{0, 1, 2, 59, 60, 61, 255, 256, 65535, 65536, 1 << 31, 1<<31 - 1, 1<<32 - 2, 1<<32 - 1}
+
+func randU32(g *vh.Rng) uint32 {
+	switch g.Intn(4) {
+	case 0:
+		return u32Boundary[g.Intn(len(u32Boundary))]
+	case 1:
+		return uint32(g.Intn(70000))
+	default:
+		return uint32(g.U64())
+	}
+}
+
+// groupC08: mathext.Mid / WithinRange at uint32 (exported generics, called directly): full product of the boundary values
+// with margins 0, 1, 2 and 2^32-1 (wrap of target-margin / target+margin), then random.
+func groupC08(n int) {
+	g := r.Rng
+	mid := func(a, b, c uint32) {
+		emit("Mid_uint32", []string{u(uint64(a)), u(uint64(b)), u(uint64(c))}, func() string { return u(uint64(mathext.Mid(a, b, c))) })
+	}
+	wr := func(v, t, m uint32) {
+		out := emit("WithinRange_uint32", []string{u(uint64(v)), u(uint64(t)), u(uint64(m))}, func() string { return b2s(mathext.WithinRange(v, t, m)) })
+		r.Distinct(fmt.Sprintf("within/%s/m%d/wrapLo%v/wrapHi%v", out, min64(int64(m), 3), t < m, uint64(t)+uint64(m) > math.MaxUint32))
+		// the property's reading for the margin 1 away from the wrap: accepted iff |v - t| <= 1
+		if m == 1 && t >= 1 && t < math.MaxUint32 {
+			d := int64(v) - int64(t)
+			if (out == "1") != (d >= -1 && d <= 1) {
+				r.Fail("within-range-not-distance-one", fmt.Sprintf("WithinRange(%d, %d, 1) = %s", v, t, out), map[string]string{"func": "WithinRange_uint32", "v": fmt.Sprint(v), "target": fmt.Sprint(t)})
+			}
+		}
+	}
+	for _, a := range u32Boundary {
+		for _, b := range u32Boundary {
+			for _, c := range []uint32{0, 1, 60, 1 << 31, 1<<32 - 1, a, b} {
+				mid(a, b, c)
+			}
+			for _, m := range []uint32{0, 1, 2, 1<<32 - 1} {
+				wr(a, b, m)
+			}
+		}
+	}
+	for k := 0; k < n; k++ {
+		mid(randU32(g), randU32(g), randU32(g))
+		t := randU32(g)
+		wr(t+uint32(g.Intn(7))-3, t, uint32(g.Intn(3)))
+		wr(randU32(g), randU32(g), randU32(g))
+	}
+}
+
+func min64(a, b int64) int64 {
+	if a < b {
+		return a
+	}
+	return b
+}
+
+// groupC09meta: the real sessionStruct.Marshal / Unmarshal and dataAckStruct.Marshal (through the C09 export hooks) at the
+// second the real clock shows (recorded in the case line as the last argument, so the translated definition gets the same).
+func groupC09meta(n int) {
+	g := r.Rng
+	marshalS := func(m protocol.VerifC09Meta) []byte {
+		var b []byte
+		now := atSecond(func() { b = protocol.VerifC09MarshalSession(m) })
+		emit("sessionMarshal", []string{fmt.Sprint(m.Proto), fmt.Sprint(m.SessionID), fmt.Sprint(m.Seq), fmt.Sprint(m.StatusCode), fmt.Sprint(m.PayloadLen), fmt.Sprint(m.SuffixLen), i(now)},
+			func() string { return vh.Hex(b) })
+		r.Distinct(fmt.Sprintf("smarshal/p%d/plen%v", m.Proto, m.PayloadLen > 1024))
+		// docs/protocol.md, session metadata layout
+		want := make([]byte, 32)
+		want[0] = m.Proto
+		binary.BigEndian.PutUint32(want[2:], uint32(now/60))
+		binary.BigEndian.PutUint32(want[6:], m.SessionID)
+		binary.BigEndian.PutUint32(want[10:], m.Seq)
+		want[14] = m.StatusCode
+		binary.BigEndian.PutUint16(want[15:], m.PayloadLen)
+		want[17] = m.SuffixLen
+		if !bytes.Equal(b, want) {
+			r.Fail("session-metadata-layout-differs-from-document", "Marshal = "+vh.Hex(b)+", document = "+vh.Hex(want), map[string]string{"func": "sessionMarshal", "proto": fmt.Sprint(m.Proto)})
+		}
+		return b
+	}
+	unmarshalS := func(b []byte) {
+		var got protocol.VerifC09Meta
+		var err error
+		now := atSecond(func() { got, err = protocol.VerifC09UnmarshalSession(b) })
+		h := vh.Hex(b)
+		if len(b) == 0 {
+			h = "-"
+		}
+		out := emit("sessionUnmarshal", []string{h, i(now)}, func() string {
+			if err != nil {
+				return "ERR"
+			}
+			return metaFields(got)
+		})
+		cls := "len"
+		if len(b) == 32 {
+			d := int64(binary.BigEndian.Uint32(b[2:])) - now/60
+			if d < -3 {
+				d = -3
+			}
+			if d > 3 {
+				d = 3
+			}
+			cls = fmt.Sprintf("p%d/d%d/plen%v", b[0], d, binary.BigEndian.Uint16(b[15:]) > 1024)
+			// the property's reading: accepted iff session type, stamp within one minute, payload length <= 1024
+			ok := b[0] >= 2 && b[0] <= 5 && d >= -1 && d <= 1 && binary.BigEndian.Uint16(b[15:]) <= 1024
+			if ok != (out != "ERR") && now/60 > 1 {
+				r.Fail("session-unmarshal-acceptance-differs-from-document", "Unmarshal("+h+") at "+i(now)+" = "+out, map[string]string{"func": "sessionUnmarshal", "bytes": h, "now": i(now)})
+			}
+		}
+		r.Distinct("sunmarshal/" + cls + "/" + b2s(out != "ERR"))
+	}
+	marshalD := func(m protocol.VerifC09Meta) {
+		var b []byte
+		now := atSecond(func() { b = protocol.VerifC09MarshalDataAck(m) })
+		emit("dataAckMarshal", []string{fmt.Sprint(m.Proto), fmt.Sprint(m.LEMode), fmt.Sprint(m.SessionID), fmt.Sprint(m.Seq), fmt.Sprint(m.UnAckSeq), fmt.Sprint(m.WindowSize),
+			fmt.Sprint(m.Fragment), fmt.Sprint(m.PrefixLen), fmt.Sprint(m.PayloadLen), fmt.Sprint(m.SuffixLen), fmt.Sprint(m.LEMask), fmt.Sprint(m.ExtractedLen), fmt.Sprint(m.LERot), i(now)},
+			func() string { return vh.Hex(b) })
+		le := m.Proto == 10 || m.Proto == 11
+		r.Distinct(fmt.Sprintf("dmarshal/p%d/le%v", m.Proto, le))
+		want := make([]byte, 32)
+		want[0] = m.Proto
+		binary.BigEndian.PutUint32(want[2:], uint32(now/60))
+		binary.BigEndian.PutUint32(want[6:], m.SessionID)
+		binary.BigEndian.PutUint32(want[10:], m.Seq)
+		binary.BigEndian.PutUint32(want[14:], m.UnAckSeq)
+		binary.BigEndian.PutUint16(want[18:], m.WindowSize)
+		want[20], want[21] = m.Fragment, m.PrefixLen
+		binary.BigEndian.PutUint16(want[22:], m.PayloadLen)
+		want[24] = m.SuffixLen
+		if le {
+			want[1] = m.LEMode
+			binary.BigEndian.PutUint32(want[25:], m.LEMask)
+			binary.BigEndian.PutUint16(want[29:], m.ExtractedLen)
+			want[31] = m.LERot
+		}
+		if !bytes.Equal(b, want) {
+			r.Fail("data-metadata-layout-differs-from-document", "Marshal = "+vh.Hex(b)+", document = "+vh.Hex(want), map[string]string{"func": "dataAckMarshal", "proto": fmt.Sprint(m.Proto)})
+		}
+	}
+	randMeta := func() protocol.VerifC09Meta {
+		return protocol.VerifC09Meta{Proto: uint8(g.Intn(14)), SessionID: randU32(g), Seq: randU32(g), StatusCode: uint8(g.Intn(256)),
+			PayloadLen: uint16(randU32(g)), SuffixLen: uint8(g.Intn(256)), UnAckSeq: randU32(g), WindowSize: uint16(randU32(g)), Fragment: uint8(g.Intn(256)),
+			PrefixLen: uint8(g.Intn(256)), LEMode: uint8(g.Intn(256)), LEMask: randU32(g), ExtractedLen: uint16(randU32(g)), LERot: uint8(g.Intn(256))}
+	}
+	for p := 0; p < 256; p++ { // every protocol byte, payload lengths around the limit, stamps -3..+3 minutes around now
+		for _, plen := range []uint16{0, 1023, 1024, 1025, 65535} {
+			m := protocol.VerifC09Meta{Proto: uint8(p), SessionID: 0x01020304, Seq: 0xa0b0c0d0, StatusCode: 3, PayloadLen: plen, SuffixLen: 200}
+			b := marshalS(m)
+			if p > 12 && plen != 1024 {
+				continue
+			}
+			for d := -3; d <= 3; d++ {
+				c := append([]byte{}, b...)
+				binary.BigEndian.PutUint32(c[2:], binary.BigEndian.Uint32(b[2:])+uint32(d))
+				unmarshalS(c)
+			}
+		}
+		marshalD(protocol.VerifC09Meta{Proto: uint8(p), SessionID: 0x01020304, Seq: 5, UnAckSeq: 4, WindowSize: 256, Fragment: 1, PrefixLen: 2, PayloadLen: 1000, SuffixLen: 3,
+			LEMode: 1, LEMask: 0x0f0f0f0f, ExtractedLen: 500, LERot: 17})
+	}
+	for _, l := range []int{0, 1, 17, 31, 33, 64} {
+		unmarshalS(g.Bytes(l))
+	}
+	nn := n
+	if nn > 20000 {
+		nn = 20000
+	}
+	for k := 0; k < nn; k++ {
+		m := randMeta()
+		b := marshalS(m)
+		marshalD(randMeta())
+		switch g.Intn(4) {
+		case 0:
+			unmarshalS(g.Bytes(32))
+		case 1:
+			b[2+g.Intn(4)] ^= byte(1 << uint(g.Intn(8)))
+			unmarshalS(b)
+		default:
+			b[0] = byte(2 + g.Intn(4))
+			if g.Intn(2) == 0 {
+				binary.BigEndian.PutUint16(b[15:], uint16(g.Intn(1100)))
+			}
+			unmarshalS(b)
+		}
+	}
+}
+
 func main() {
-	group := flag.String("group", "all", "c17|c14|c09|all: the functions of which check")
+	group := flag.String("group", "all", "c17|c14|c09|c08|all: the functions of which check")
 	nrand := flag.Int("n", 0, "random cases per function (0: 2000 in the quick tier, 100000 in the thorough tier)")
 	r = vh.Start("xl")
 	defer r.Finish()
@@ -523,6 +733,10 @@ func main() {
 	if *group == "c09" || *group == "all" {
 		groupC09()
 		nonces(n)
+		groupC09meta(n)
+	}
+	if *group == "c08" || *group == "all" {
+		groupC08(n)
 	}
 	if r.Rep.Notes == nil {
 		r.Rep.Notes = map[string]string{}
